@@ -99,6 +99,28 @@ let cl_dump (w : wtree) : string =
         "#" ^ string_of_int k ^ "=(" ^ head_of e ^ inner ^ ")" in
   go w
 
+(* the dump with Add entries sorted (their order is the bucket order of an unordered_map) *)
+let rec canon_dump (e : expr) : string =
+  let args l = String.concat "" (List.map (fun a -> " " ^ canon_dump a) l) in
+  let pairs l = String.concat "" (List.map (fun (a, b) -> " (" ^ canon_dump a ^ " " ^ canon_dump b ^ ")") l) in
+  match e with
+  | EAdd (c, d) ->
+      "(Add " ^ dump_num c
+      ^ String.concat "" (List.sort compare (List.map (fun (a, v) -> " (" ^ canon_dump a ^ " " ^ dump_num v ^ ")") d)) ^ ")"
+  | EMul (c, d) -> "(Mul " ^ dump_num c ^ pairs d ^ ")"
+  | EPow (a, b) -> "(Pow " ^ canon_dump a ^ " " ^ canon_dump b ^ ")"
+  | EF1 (c, a) -> "(F1 " ^ class_name c ^ " " ^ canon_dump a ^ ")"
+  | EF2 (c, a, b) -> "(F2 " ^ class_name c ^ " " ^ canon_dump a ^ " " ^ canon_dump b ^ ")"
+  | EFN (c, l) -> "(FN " ^ class_name c ^ args l ^ ")"
+  | EFunSym (s, l) -> "(FunSym " ^ hexname s ^ args l ^ ")"
+  | ELex (c, a, b) -> "(Lex " ^ class_name c ^ " " ^ canon_dump a ^ " " ^ canon_dump b ^ ")"
+  | EDeriv (a, l) -> "(Deriv " ^ canon_dump a ^ args l ^ ")"
+  | ESubs (a, d) -> "(Subs " ^ canon_dump a ^ pairs d ^ ")"
+  | EPw l -> "(Pw" ^ pairs l ^ ")"
+  | EInterval (s, x, lo, ro) ->
+      "(Interval " ^ canon_dump s ^ " " ^ canon_dump x ^ " " ^ (if lo then "1" else "0") ^ " " ^ (if ro then "1" else "0") ^ ")"
+  | _ -> dump e
+
 (* ---- sharing signature: for every distinct id, (hash of the node's dump, number of occurrences in
    the stream), sorted -- invariant under re-ordering of hash-ordered containers and of equivalent
    elements inside a multiset ---- *)
@@ -109,7 +131,7 @@ let share_sig (w : wtree) : string =
     let key = dec_of_n a in
     match Hashtbl.find_opt tbl key with
     | Some (h, c) -> Hashtbl.replace tbl key (h, c + 1)
-    | None -> Hashtbl.add tbl key (Hashtbl.hash (dump e), 1); List.iter go kids in
+    | None -> Hashtbl.add tbl key (Hashtbl.hash (canon_dump e), 1); List.iter go kids in
   go w;
   let l = Hashtbl.fold (fun _ (h, c) acc -> Printf.sprintf "%08x:%d" h c :: acc) tbl [] in
   String.concat "," (List.sort compare l)
